@@ -182,6 +182,9 @@ def validate_traces(lines, workdir, name, shards=None, timeout=1800, profile="de
     total = sum(len(l) for g in groups for l in g)
     if shards is None:
         shards = max(1, min(12, len(groups) // 6))
+    # a scenario that measures something every later verdict depends on (the row capacity, C20) goes first in every shard
+    common = [g for g in groups if '"tag":"measure_rowcap"' in g[0]]
+    groups = [g for g in groups if '"tag":"measure_rowcap"' not in g[0]]
     # balance by bytes
     bins = [[] for _ in range(shards)]
     sizes = [0] * shards
@@ -195,7 +198,7 @@ def validate_traces(lines, workdir, name, shards=None, timeout=1800, profile="de
             continue
         fn = os.path.join(workdir, "%s.shard%d.ndjson" % (name, i))
         with open(fn, "w") as f:
-            for g in b:
+            for g in common + b:
                 for l in g:
                     f.write(l + "\n")
         files.append(fn)
